@@ -111,7 +111,7 @@ func (cx *c20Ctx) limiterGet(okStatus int64) {
 				if !(ev.recv.k == c20kIn && ev.recv.h.key() == key) {
 					set(&bad1, &pos1, ev.call, "`"+src(r.P.Fset, ev.call)+"` does not wait on the datasource's own "+field)
 				}
-				if len(ev.args) != 1 || !c20IsInput(ev.args[0], "p0") {
+				if len(ev.args) != 1 || !c20IsInput(ev.args[0], cx.getKey(cx.get.ctx)) {
 					set(&bad1, &pos1, ev.call, "`"+src(r.P.Fset, ev.call)+"` does not wait on the call's context parameter")
 				}
 			}
